@@ -9,11 +9,12 @@ package state_test
 // proxy sets them, plus the direct Packet.Decode call wrapped like decodePayload does.
 
 import (
+	"bufio"
 	"bytes"
-	"context"
 	"encoding/json"
 	"errors"
 	"fmt"
+	"io"
 	"os"
 	"os/exec"
 	"path/filepath"
@@ -25,6 +26,7 @@ import (
 	"sort"
 	"strconv"
 	"strings"
+	"sync"
 	"testing"
 	"time"
 
@@ -198,7 +200,81 @@ type c05ChildReport struct {
 	Deadlocked bool   `json:"deadlocked"`
 }
 
-var c05ChildSeq int
+// The isolated decodes run in one long-lived worker process (the test binary re-executed
+// with VERIF_C05_CHILD=stdin) that reads one case per line and answers one report per
+// line; when a case kills the worker, the death is the observation and a new worker is
+// started for the next case.
+type c05Worker struct {
+	cmd    *exec.Cmd
+	in     io.WriteCloser
+	lines  chan string
+	stderr *c05SyncBuf
+}
+
+type c05SyncBuf struct {
+	mu sync.Mutex
+	b  bytes.Buffer
+}
+
+func (s *c05SyncBuf) Write(p []byte) (int, error) {
+	s.mu.Lock()
+	defer s.mu.Unlock()
+	if s.b.Len() < 1<<20 {
+		s.b.Write(p)
+	}
+	return len(p), nil
+}
+
+func (s *c05SyncBuf) String() string {
+	s.mu.Lock()
+	defer s.mu.Unlock()
+	return s.b.String()
+}
+
+var c05W *c05Worker
+
+func c05StartWorker() *c05Worker {
+	cmd := exec.Command(os.Args[0], "-test.run", "^TestVerif_C05Child$", "-test.count", "1", "-test.timeout", "0")
+	cmd.Env = append(os.Environ(), "VERIF_C05_CHILD=stdin", "VERIF_STATS=", "VERIF_LASTCASE=", "VERIF_REPLAY=", "GOTRACEBACK=single")
+	in, err := cmd.StdinPipe()
+	if err != nil {
+		panic(err)
+	}
+	out, err := cmd.StdoutPipe()
+	if err != nil {
+		panic(err)
+	}
+	w := &c05Worker{cmd: cmd, in: in, lines: make(chan string, 4), stderr: &c05SyncBuf{}}
+	cmd.Stderr = w.stderr
+	if err := cmd.Start(); err != nil {
+		panic(err)
+	}
+	go func() {
+		defer close(w.lines)
+		rd := bufio.NewReaderSize(out, 1<<16)
+		for {
+			line, err := rd.ReadString('\n')
+			if strings.HasPrefix(line, "C05CHILD ") {
+				w.lines <- strings.TrimSpace(strings.TrimPrefix(line, "C05CHILD "))
+			} else if line != "" {
+				w.stderr.Write([]byte(line))
+			}
+			if err != nil {
+				return
+			}
+		}
+	}()
+	return w
+}
+
+func c05StopWorker() {
+	if c05W != nil {
+		c05W.in.Close()
+		c05W.cmd.Process.Kill()
+		c05W.cmd.Wait()
+		c05W = nil
+	}
+}
 
 func c05ExecIsolated(c c05Case, data []byte, typ string, eff proto.Protocol) c05Outcome {
 	out := c05Outcome{typ: typ, effProto: eff}
@@ -207,25 +283,23 @@ func c05ExecIsolated(c c05Case, data []byte, typ string, eff proto.Protocol) c05
 		cc.Head, cc.RepUnit, cc.RepCount, cc.Tail = data, nil, 0, nil
 	}
 	b, _ := json.Marshal(cc)
-	c05ChildSeq++
-	path := filepath.Join(os.TempDir(), fmt.Sprintf("c05-child-%d-%d.json", os.Getpid(), c05ChildSeq))
-	if err := os.WriteFile(path, b, 0o644); err != nil {
-		panic(err)
+	if c05W == nil {
+		c05W = c05StartWorker()
 	}
-	defer os.Remove(path)
-	ctx, cancel := context.WithTimeout(context.Background(), 15*time.Minute)
-	defer cancel()
-	cmd := exec.CommandContext(ctx, os.Args[0], "-test.run", "^TestVerif_C05Child$", "-test.count", "1")
-	cmd.Env = append(os.Environ(), "VERIF_C05_CHILD="+path, "VERIF_STATS=", "VERIF_LASTCASE=", "VERIF_REPLAY=", "GOTRACEBACK=single")
-	var buf bytes.Buffer
-	cmd.Stdout, cmd.Stderr = &buf, &buf
-	err := cmd.Run()
-	txt := buf.String()
-	if i := strings.Index(txt, "C05CHILD "); i >= 0 {
-		line := txt[i+len("C05CHILD "):]
-		if j := strings.IndexByte(line, '\n'); j >= 0 {
-			line = line[:j]
+	w := c05W
+	_, werr := w.in.Write(append(b, '\n'))
+	var line string
+	alive := werr == nil
+	timedOut := false
+	if alive {
+		select {
+		case l, ok := <-w.lines:
+			line, alive = l, ok
+		case <-time.After(15 * time.Minute):
+			timedOut = true
 		}
+	}
+	if alive && !timedOut {
 		var rep c05ChildReport
 		if json.Unmarshal([]byte(line), &rep) == nil {
 			out.alloc, out.stack, out.hung, out.deadlocked = rep.Alloc, rep.Stack, rep.Hung, rep.Deadlocked
@@ -243,15 +317,26 @@ func c05ExecIsolated(c c05Case, data []byte, typ string, eff proto.Protocol) c05
 			if !rep.CtxNil {
 				out.ctx = &proto.PacketContext{}
 			}
+			if rep.Hung {
+				c05StopWorker() // a spinning goroutine stays behind in that process
+			}
 			return out
 		}
 	}
+	// the worker is gone (or silent): its death is the observation
+	w.in.Close()
+	if timedOut {
+		w.cmd.Process.Kill()
+	}
+	err := w.cmd.Wait()
+	c05W = nil
+	txt := w.stderr.String()
 	head := txt
 	if len(head) > 1500 {
 		head = head[:1500]
 	}
 	switch {
-	case ctx.Err() != nil:
+	case timedOut:
 		out.inconclusive, out.panicStack = true, "isolated decode did not finish within 15 min\n"+head
 	case strings.Contains(txt, "stack overflow") || strings.Contains(txt, "stack exceeds"):
 		out.fatal, out.panicStack = "stack-overflow", head
@@ -263,37 +348,63 @@ func c05ExecIsolated(c c05Case, data []byte, typ string, eff proto.Protocol) c05
 	return out
 }
 
-// TestVerif_C05Child is the body of the isolated decode (see c05ExecIsolated).
+// TestVerif_C05Child is the body of the worker process (see c05ExecIsolated).
 func TestVerif_C05Child(t *testing.T) {
-	path := os.Getenv("VERIF_C05_CHILD")
-	if path == "" {
+	mode := os.Getenv("VERIF_C05_CHILD")
+	if mode == "" {
 		t.Skip("not a child")
 	}
-	b, err := os.ReadFile(path)
-	if err != nil {
-		t.Fatal(err)
-	}
-	var c c05Case
-	if err := json.Unmarshal(b, &c); err != nil {
-		t.Fatal(err)
-	}
-	data := c.data()
-	// a goroutine needing more than twice the stack bound of the oracle violates that
-	// bound anyway; the lower limit only makes the runaway end quickly
-	if lim := 2 * (c05StackPerByte*(len(data)+8) + c05FixedCap); lim < 1000000000 {
+	c05MemSetup()
+	one := func(b []byte) bool {
+		var c c05Case
+		if err := json.Unmarshal(b, &c); err != nil {
+			fmt.Printf("C05CHILD {\"err\":\"bad case: %v\",\"ctx_nil\":true}\n", err)
+			return true
+		}
+		data := c.data()
+		// a goroutine needing more than twice the stack bound of the oracle violates that
+		// bound anyway; the lower limit only makes a runaway end quickly
+		lim := 2 * (c05StackPerByte*(len(data)+8) + c05FixedCap)
+		if lim > 1000000000 {
+			lim = 1000000000
+		}
 		debug.SetMaxStack(lim)
+		o := c05execLocal(c, data)
+		rep := c05ChildReport{Alloc: o.alloc, Stack: o.stack, Hung: o.hung, Deadlocked: o.deadlocked, CtxNil: o.ctx == nil, PanicStack: o.panicStack}
+		if o.err != nil {
+			rep.Err = o.err.Error()
+			rep.LeftBytes = errors.Is(o.err, proto.ErrDecoderLeftBytes)
+		}
+		if o.panicked != nil {
+			rep.Panicked = fmt.Sprint(o.panicked)
+		}
+		out, _ := json.Marshal(rep)
+		fmt.Printf("C05CHILD %s\n", out)
+		if len(data) > 256<<10 || o.stack > 16<<20 || o.alloc > 16<<20 {
+			runtime.GC()
+		}
+		return !o.hung
 	}
-	o := c05execLocal(c, data)
-	rep := c05ChildReport{Alloc: o.alloc, Stack: o.stack, Hung: o.hung, Deadlocked: o.deadlocked, CtxNil: o.ctx == nil, PanicStack: o.panicStack}
-	if o.err != nil {
-		rep.Err = o.err.Error()
-		rep.LeftBytes = errors.Is(o.err, proto.ErrDecoderLeftBytes)
+	if mode != "stdin" {
+		b, err := os.ReadFile(mode)
+		if err != nil {
+			t.Fatal(err)
+		}
+		one(b)
+		return
 	}
-	if o.panicked != nil {
-		rep.Panicked = fmt.Sprint(o.panicked)
+	rd := bufio.NewReaderSize(os.Stdin, 1<<20)
+	for {
+		line, err := rd.ReadBytes('\n')
+		if len(bytes.TrimSpace(line)) > 0 {
+			if !one(line) {
+				os.Exit(0) // a spinning goroutine cannot be stopped; the parent starts a new worker
+			}
+		}
+		if err != nil {
+			return
+		}
 	}
-	out, _ := json.Marshal(rep)
-	fmt.Printf("C05CHILD %s\n", out)
 }
 
 func c05Exec(c c05Case, data []byte) c05Outcome {
@@ -583,6 +694,9 @@ func c05Run(c c05Case) verifkit.Result {
 	if o.inconclusive {
 		return verifkit.Result{Inconclusive: true, Labels: append(labels, "inconclusive:isolated-run-timeout")}
 	}
+	if len(data) > 256<<10 || o.alloc > 16<<20 || o.stack > 16<<20 {
+		runtime.GC() // give big buffers and grown stacks back before the next case
+	}
 	v, l2, nt := c05Judge(c, data, o, false)
 	labels = append(labels, l2...)
 	if v != nil {
@@ -605,6 +719,47 @@ var c05Protocols = func() []int {
 	out = append(out, 3, 6, 48, 100, 600, 9999, int(version.MaximumVersion.Protocol)+1, -2, 1<<30)
 	return out
 }()
+
+// c05WireNode is one brigadier node in wire form (independent writer).
+type c05WireNode struct {
+	Type     byte // 0 root, 1 literal, 2 argument, 3 invalid
+	Flags    byte // 0x04 executable, 0x08 redirect, 0x10 suggestions, 0x20 restricted
+	Children []int32
+	Redirect int32
+	Name     string
+}
+
+// c05EncodeGraph writes the nodes in the AvailableCommands layout. Argument nodes use
+// brigadier:bool (no properties): string id before 1.19, numeric id 0 since.
+func c05EncodeGraph(nodes []c05WireNode, root int32, pr proto.Protocol, countSkew int) []byte {
+	var b []byte
+	b = append(b, verifkit.RefVarInt(int32(len(nodes)+countSkew))...)
+	for _, n := range nodes {
+		b = append(b, n.Type&0x03|n.Flags)
+		b = append(b, verifkit.RefVarInt(int32(len(n.Children)))...)
+		for _, c := range n.Children {
+			b = append(b, verifkit.RefVarInt(c)...)
+		}
+		if n.Flags&0x08 != 0 {
+			b = append(b, verifkit.RefVarInt(n.Redirect)...)
+		}
+		switch n.Type & 0x03 {
+		case 1:
+			b = append(b, verifkit.RefString(n.Name)...)
+		case 2:
+			b = append(b, verifkit.RefString(n.Name)...)
+			if pr.GreaterEqual(version.Minecraft_1_19) {
+				b = append(b, 0)
+			} else {
+				b = append(b, verifkit.RefString("brigadier:bool")...)
+			}
+			if n.Flags&0x10 != 0 {
+				b = append(b, verifkit.RefString("minecraft:ask_server")...)
+			}
+		}
+	}
+	return append(b, verifkit.RefVarInt(root)...)
+}
 
 var c05ByTypeCache map[string][]c04Combo
 var c05TypeNamesCache []string
@@ -646,11 +801,15 @@ func c05Gen(t *rapid.T) c05Case {
 		h ^= h >> 15
 		return int(h % uint32(n))
 	}
-	if rapid.IntRange(0, 9).Draw(t, "fromRegistry") < 8 {
+	graph := uniform("graphCase", 12) == 0
+	if graph || rapid.IntRange(0, 9).Draw(t, "fromRegistry") < 8 {
 		// type first (66 types), then one of its registrations
 		byType := c05CombosByType()
 		names := c05TypeNames()
 		list := byType[names[uniform("type", len(names))]]
+		if graph {
+			list = byType["packet.AvailableCommands"]
+		}
 		combo = list[uniform("registration", len(list))]
 		haveCombo = true
 		c.State, c.Dir, c.Proto, c.ID = int(combo.State), int(combo.Dir), int(combo.Proto), int(combo.ID)
@@ -668,6 +827,9 @@ func c05Gen(t *rapid.T) c05Case {
 	if haveCombo {
 		kind = []string{"random", "random", "valid", "valid", "mutated", "mutated", "mutated", "mutated", "truncated", "truncated", "blowup", "blowup", "blowup", "blowup", "blowup", "blowup", "deep-nbt", "extended", "extended", "mutated"}[uniform("kind", 20)]
 	}
+	if graph || (haveCombo && combo.Type.String() == "packet.AvailableCommands" && uniform("graph", 2) == 0) {
+		kind = "brigadier-graph"
+	}
 	c.Kind = kind
 	randBytes := func(label string, max int) []byte {
 		n := rapid.SampledFrom([]int{0, 1, 2, 5, 16, 64, 300, max}).Draw(t, label+"Len")
@@ -677,7 +839,7 @@ func c05Gen(t *rapid.T) c05Case {
 		return rapid.SliceOfN(rapid.Byte(), n, n).Draw(t, label)
 	}
 	var valid []byte
-	if kind != "random" && kind != "deep-nbt" {
+	if kind != "random" && kind != "deep-nbt" && kind != "brigadier-graph" {
 		p, env := c04Build(combo, c04EntropyGen.Draw(t, "entropy"), rapid.Bool().Draw(t, "wide"))
 		if env.genErr == nil {
 			if b, err := c04Encode(combo, p); err == nil {
@@ -736,6 +898,47 @@ func c05Gen(t *rapid.T) c05Case {
 		}
 		v := rapid.SampledFrom(c05BlowValues).Draw(t, "value")
 		c.Head = append(append(append([]byte(nil), b[:pos]...), verifkit.RefVarInt(v)...), b[pos+n:]...)
+	case "brigadier-graph":
+		// hostile command graphs written node by node: self / mutual redirects, child and
+		// redirect indices forming cycles, pointing to never-buildable or non-existent
+		// nodes, duplicate names, several or no roots
+		n := rapid.IntRange(0, 6).Draw(t, "nodes")
+		idx := func(label string) int32 {
+			return int32(rapid.SampledFrom([]int{-1, 0, 0, 1, 1, 2, 3, 4, 5, n - 1, n, n + 1, 1 << 20}).Draw(t, label))
+		}
+		nodes := make([]c05WireNode, n)
+		for i := range nodes {
+			nd := &nodes[i]
+			nd.Type = byte(rapid.SampledFrom([]int{0, 1, 1, 2, 2, 3}).Draw(t, "nodeType"))
+			if i == 0 && rapid.Bool().Draw(t, "rootFirst") {
+				nd.Type = 0
+			}
+			nd.Flags = byte(rapid.SampledFrom([]int{0, 0x04, 0x08, 0x08, 0x0c, 0x10, 0x20, 0x18}).Draw(t, "flags"))
+			for j, k := 0, rapid.IntRange(0, 3).Draw(t, "children"); j < k; j++ {
+				switch rapid.IntRange(0, 3).Draw(t, "childKind") {
+				case 0:
+					nd.Children = append(nd.Children, int32(i)) // itself
+				case 1:
+					nd.Children = append(nd.Children, int32((i+1)%(n+1)))
+				default:
+					nd.Children = append(nd.Children, idx("child"))
+				}
+			}
+			switch rapid.IntRange(0, 3).Draw(t, "redirectKind") {
+			case 0:
+				nd.Redirect = int32(i) // itself
+			case 1:
+				nd.Redirect = int32((i + 1) % (n + 1)) // next (mutual with a predecessor redirect)
+			default:
+				nd.Redirect = idx("redirect")
+			}
+			nd.Name = rapid.SampledFrom([]string{"a", "a", "b", "", "cmd"}).Draw(t, "name")
+		}
+		c.Head = c05EncodeGraph(nodes, idx("root"), proto.Protocol(c.Proto), rapid.IntRange(0, 3).Draw(t, "countSkew")-1)
+		c.Tail = randBytes("tail", 4)
+		if rapid.IntRange(0, 3).Draw(t, "noTail") != 0 {
+			c.Tail = nil
+		}
 	case "deep-nbt":
 		// nested compounds / lists, optionally behind a few bytes (ids, flags, uuids)
 		c.Head = randBytes("prefix", 20)
@@ -764,11 +967,21 @@ func c05Gen(t *rapid.T) c05Case {
 }
 
 const c05Rule = "rapid: (state, direction, protocol incl. unknown numbers, packet id from the live registry or arbitrary) x payload in {random bytes, valid encoding from the C04 generator, " +
-	"byte flips/insertions, truncation, trailing junk, every-VarInt blow-up (-1, 2^31-1, 2^21, 2^24, 2^28, limits+1), deeply nested NBT up to 400k levels, repeated-unit payloads up to the frame limit}; " +
+	"byte flips/insertions, truncation, trailing junk, hostile brigadier node graphs (self/mutual redirects, child cycles, out-of-range and never-buildable references, duplicate names), every-VarInt blow-up (-1, 2^31-1, 2^21, 2^24, 2^28, limits+1), deeply nested NBT up to 400k levels, repeated-unit payloads up to the frame limit}; " +
 	"through codec.Decoder.Decode set up in the proxy's call order (and 1/6 through Packet.Decode wrapped like decodePayload); oracle: returns (ctx,nil) / (ctx,ErrDecoderLeftBytes) / (nil,err), no escaping panic, " +
 	"returns within the watchdog, heap allocation and stack growth <= 64*len + 32 MiB; non-trivial = id is registered and (payload derived from a valid encoding, or decoded, or failed after the first field)"
 
+// c05MemSetup keeps the collector ahead of the ulimit the driver imposes: on a loaded
+// machine GC workers starve, the heap balloons and the process would die of an
+// out-of-memory that no packet caused.
+func c05MemSetup() {
+	debug.SetMemoryLimit(1200 << 20)
+	debug.SetGCPercent(50)
+}
+
 func TestVerif_C05(t *testing.T) {
+	c05MemSetup()
+	defer c05StopWorker()
 	verifkit.Check(t, "C05", "decode", c05Rule, c05Gen, c05Run)
 
 	// Hypothesis 21: public API order (state first, then the protocol) for every state,
@@ -808,6 +1021,7 @@ func c05FuzzCase(st uint8, dir bool, protoIdx uint16, id int32, direct bool, pay
 }
 
 func FuzzVerif_C05_decode(f *testing.F) {
+	c05MemSetup()
 	f.Add(uint8(3), false, uint16(10), int32(0), false, []byte{0})
 	f.Fuzz(func(t *testing.T, st uint8, dir bool, protoIdx uint16, id int32, direct bool, payload []byte) {
 		if len(payload) > 1<<21 {
@@ -874,6 +1088,54 @@ func TestVerif_C05Corpus(t *testing.T) {
 				}
 				n++
 			}
+		}
+	}
+	// hostile command graphs for every version AvailableCommands is registered in
+	graphs := map[string]func() ([]c05WireNode, int32){
+		"self-redirect": func() ([]c05WireNode, int32) {
+			return []c05WireNode{{Type: 0, Children: []int32{1}}, {Type: 1, Flags: 0x08, Redirect: 1, Name: "a"}}, 0
+		},
+		"mutual-redirect": func() ([]c05WireNode, int32) {
+			return []c05WireNode{{Type: 0, Children: []int32{1, 2}}, {Type: 1, Flags: 0x08, Redirect: 2, Name: "a"}, {Type: 1, Flags: 0x08, Redirect: 1, Name: "b"}}, 0
+		},
+		"child-cycle": func() ([]c05WireNode, int32) {
+			return []c05WireNode{{Type: 0, Children: []int32{1}}, {Type: 1, Children: []int32{2}, Name: "a"}, {Type: 1, Children: []int32{1}, Name: "b"}}, 0
+		},
+		"self-child": func() ([]c05WireNode, int32) {
+			return []c05WireNode{{Type: 0, Children: []int32{1}}, {Type: 2, Children: []int32{1}, Name: "a"}}, 0
+		},
+		"redirect-out-of-range": func() ([]c05WireNode, int32) {
+			return []c05WireNode{{Type: 0, Children: []int32{1}}, {Type: 1, Flags: 0x08, Redirect: 7, Name: "a"}}, 0
+		},
+		"child-out-of-range": func() ([]c05WireNode, int32) {
+			return []c05WireNode{{Type: 0, Children: []int32{1, 9}}, {Type: 1, Name: "a"}}, 0
+		},
+		"root-is-literal": func() ([]c05WireNode, int32) {
+			return []c05WireNode{{Type: 0, Children: []int32{1}}, {Type: 1, Name: "a"}}, 1
+		},
+		"redirect-to-unbuildable": func() ([]c05WireNode, int32) {
+			return []c05WireNode{{Type: 0}, {Type: 1, Flags: 0x08, Redirect: 2, Name: "a"}, {Type: 1, Children: []int32{1}, Name: "b"}}, 0
+		},
+	}
+	gnames := make([]string, 0, len(graphs))
+	for k := range graphs {
+		gnames = append(gnames, k)
+	}
+	sort.Strings(gnames)
+	for _, combo := range c04Combos() {
+		if combo.Type.String() != "packet.AvailableCommands" {
+			continue
+		}
+		for _, g := range gnames {
+			nodes, root := graphs[g]()
+			b := c05EncodeGraph(nodes, root, combo.Proto, 0)
+			body := fmt.Sprintf("go test fuzz v1\nuint8(%d)\nbool(%v)\nuint16(%d)\nint32(%d)\nbool(false)\n[]byte(%s)\n",
+				int(combo.State), combo.Dir == proto.ServerBound, protoIdx[int(combo.Proto)], int(combo.ID), strconv.Quote(string(b)))
+			name := fmt.Sprintf("graph-%s-%d", g, int(combo.Proto))
+			if err := os.WriteFile(filepath.Join(dir, name), []byte(body), 0o644); err != nil {
+				t.Fatal(err)
+			}
+			n++
 		}
 	}
 	fmt.Printf("wrote %d corpus files to %s\n", n, dir)
